@@ -1,7 +1,7 @@
 """C08 - trim_graph preserves the outputs as a function of the inputs."""
 from pyvc.heapspec import (cached, forall_nodes, has_formula, in_done, in_set, is_range, old_cached, old_has_formula,
-                           old_in_set, reads, same_formula, same_node, same_value, succ)
-from pyvc.spec import Contract, HeapCell, HeapCompiler, HeapSet, Lemma, NoneT, implies
+                           old_in_set, pre_in_set, pre_same_fields, reads, same_formula, same_node, same_value, succ)
+from pyvc.spec import Contract, HeapAddr, HeapCell, HeapCompiler, HeapSet, Lemma, NoneT, Tuple, Union, implies
 
 SYMBOLIC_TWINS = {}
 
@@ -119,22 +119,132 @@ def wp_inv_values_kept(self, needed_cells, processed_cells, cell):
     return forall_nodes(lambda m: implies(old_cached(m), same_value(m)))
 
 
+# -- trim_graph(input_addrs, output_addrs): the assembly ------------------------------------------------------------
+
+M, S2 = 'cell_map', 'dependants_of_inputs'
+GEN_GRAPH = 'pycel.excelcompiler:ExcelCompiler._gen_graph'
+
+
+def snapshot_dependants(vr, interp, env):
+    """ghost: the needed set as it is after step 2 (the walk from the inputs), before the outputs are added"""
+    from pyvc import heapmodel as HM
+    HM.declare_heap_set(S2)
+    h = dict(HM.heap_of(interp.ex))
+    h['set:' + S2] = h['set:' + N]
+    interp.ex.heap = h
+
+
+def in_tuple(m, addrs):
+    r = False
+    for a in addrs:
+        r = r or same_node(m, a)
+    return r
+
+
+def pre_trim(self, input_addrs, output_addrs):
+    """the graph of the outputs is built (their addresses are in the model; _gen_graph has nothing to add)"""
+    ok = True
+    for o in output_addrs:
+        ok = ok and in_set(M, o)
+    return ok
+
+
+def tg_keeps_exactly_the_needed(self, input_addrs, output_addrs, result):
+    """(a) cell_map afterwards = the cells that were there and are needed"""
+    return forall_nodes(lambda m: in_set(M, m) == (old_in_set(M, m) and in_set(N, m)))
+
+
+def tg_outputs_and_dependants_needed(self, input_addrs, output_addrs, result):
+    """the outputs are needed; the ghost set S (needed after the walk from the inputs) is inside the needed set,
+    contains every dependant of an input that is in the model, and is closed under dependants"""
+    return (forall_nodes(lambda m: implies(in_tuple(m, output_addrs), in_set(N, m)))
+            and forall_nodes(lambda m: implies(in_set(S2, m), in_set(N, m)))
+            and forall_nodes(lambda i: implies(in_tuple(i, input_addrs) and old_in_set(M, i),
+                                               forall_nodes(lambda k: implies(succ(i, k), in_set(S2, k)))))
+            and forall_nodes(lambda m: implies(in_set(S2, m), forall_nodes(lambda k: implies(succ(m, k), in_set(S2, k))))))
+
+
+def tg_frozen_are_outside_the_dependants(self, input_addrs, output_addrs, result):
+    """(b) + (c): a cell loses its formula only if it is not a dependant of an input (not in S), not an output and
+    not a range; it then holds a value and is kept; no cell gains or changes a formula"""
+    return forall_nodes(lambda m: implies(not same_formula(m),
+                                          not in_set(S2, m) and not in_tuple(m, output_addrs) and not is_range(m)
+                                          and cached(m) and not has_formula(m) and in_set(N, m)))
+
+
+def tg_kept_computed_nodes_keep_their_precedents(self, input_addrs, output_addrs, result):
+    """(d) every output, and every processed node, that still computes (formula or range) has all the addresses it
+    needs processed; processed addresses are needed (hence kept)"""
+    return (forall_nodes(lambda m: implies((in_set(P, m) or in_tuple(m, output_addrs)) and (has_formula(m) or is_range(m)),
+                                           forall_nodes(lambda p: implies(reads(p, m), in_set(P, p)))))
+            and forall_nodes(lambda m: implies(in_set(P, m), in_set(N, m) or is_range(m))))
+
+
+def tg_values_kept(self, input_addrs, output_addrs, result):
+    return forall_nodes(lambda m: implies(old_cached(m), same_value(m)))
+
+
+# loop 4: for addr in cells_to_remove: del self.cell_map[addr]
+def rm_inv_map(self, input_addrs, output_addrs):
+    return forall_nodes(lambda m: in_set(M, m) == (pre_in_set(M, m) and not in_done(m)))
+
+
+def rm_inv_rest_untouched(self, input_addrs, output_addrs):
+    return forall_nodes(lambda m: in_set(N, m) == pre_in_set(N, m) and in_set(P, m) == pre_in_set(P, m)
+                        and in_set(S2, m) == pre_in_set(S2, m) and pre_same_fields(m))
+
+
+def gg_nothing_changes(self, seed, recursed, result):
+    return True
+
+
+def wp_processed_are_needed(self, needed_cells, processed_cells, cell, result):
+    """(a range that is only a precedent is walked through but not itself needed: it is rebuilt on demand)"""
+    return forall_nodes(lambda m: implies(in_set(P, m) and not old_in_set(P, m), in_set(N, m) or is_range(m)))
+
+
+def wp_inv_processed_are_needed(self, needed_cells, processed_cells, cell):
+    return forall_nodes(lambda m: implies(in_set(P, m) and not old_in_set(P, m), in_set(N, m) or is_range(m)))
+
+
+ASSUMED = [
+    Contract(GEN_GRAPH, 'C08', heap=True, params=dict(self=HeapCompiler(trimming=True), seed=HeapAddr(), recursed=NoneT()),
+             ensures=[gg_nothing_changes], modifies=(), returns=NoneT(), klass='BOUNDED',
+             notes='trim_graph is verified for the case that the graph of the outputs is already built (requires): '
+                   '_gen_graph then returns at once; building it is C04 / C05'),
+]
+
 CONTRACTS = [
+    Contract(TRIM, 'C08', heap=True, heap_sets=(N, P), ghost_before_loop={1: snapshot_dependants},
+             modular=[GEN_GRAPH, TRIM + '.walk_dependents', TRIM + '.walk_precedents'],
+             params=dict(self=HeapCompiler(cycles=False, trimming=True),
+                         input_addrs=Union(Tuple(HeapAddr()), Tuple(HeapAddr(), HeapAddr())),
+                         output_addrs=Union(Tuple(HeapAddr()), Tuple(HeapAddr(), HeapAddr()))),
+             requires=[pre_trim],
+             ensures=[tg_keeps_exactly_the_needed, tg_outputs_and_dependants_needed, tg_frozen_are_outside_the_dependants,
+                      tg_kept_computed_nodes_keep_their_precedents, tg_values_kept],
+             returns=NoneT(),
+             invariants={4: [rm_inv_map, rm_inv_rest_untouched]},
+             notes='one or two inputs / outputs: the two loops over them are unrolled (the contracts of the closures carry '
+                   'the unbounded part); inputs that are not in the model only produce a warning'),
     Contract(TRIM + '.walk_precedents', 'C08', heap=True, decreases='recursive',
              params=dict(self=HeapCompiler(cycles=False), needed_cells=HeapSet(N), processed_cells=HeapSet(P),
                          cell=HeapCell()),
              free_vars=('self', 'needed_cells', 'processed_cells'),
              bound_args=lambda names, args: ([args[names.index('cell')]], {}),
              ensures=[wp_monotone, wp_reads_processed, wp_new_processed_closed, wp_frozen_have_value, wp_formula_frame,
-                      wp_needed_grows_by_frozen_only, wp_values_kept],
+                      wp_needed_grows_by_frozen_only, wp_values_kept, wp_processed_are_needed],
+             modifies=('value', 'formula', 'set:needed_cells', 'set:processed_cells'),
              returns=NoneT(),
              invariants={0: [wp_inv_monotone, wp_inv_done_processed, wp_inv_new_processed_closed, wp_inv_frozen_have_value,
-                             wp_inv_formula_frame, wp_inv_needed_grows_by_frozen_only, wp_inv_values_kept]}),
+                             wp_inv_formula_frame, wp_inv_needed_grows_by_frozen_only, wp_inv_values_kept,
+                             wp_inv_processed_are_needed]}),
     Contract(TRIM + '.walk_dependents', 'C08', heap=True, decreases='recursive',
              params=dict(self=HeapCompiler(cycles=False), needed_cells=HeapSet(N), cell=HeapCell()),
              free_vars=('self', 'needed_cells'),
              bound_args=lambda names, args: ([args[names.index('cell')]], {}),
              ensures=[wd_monotone, wd_successors_needed, wd_added_are_closed, wd_frame], returns=NoneT(),
+             modifies=('set:needed_cells',),
              invariants={0: [wd_inv_monotone, wd_inv_done_needed, wd_inv_added_closed, wd_inv_frame]}),
 ]
 LEMMAS = []
@@ -258,25 +368,111 @@ def _precedents(W, wb, cell):
     return seen
 
 
+# -- from the contracts to the property: Sem'(o) = Sem(o) for every assignment of the inputs ----------------------------
+#
+# Two induction steps over the rank of a node in the (acyclic) reads relation, written directly as SMT queries over
+# uninterpreted functions.  They use only what the contracts above establish (named in the comments) plus C01's Local
+# (a cached computed node holds its from-scratch value) and the graph invariant "every read is an edge" (C04).
+
+def sem_preservation_steps():
+    import time
+    import z3
+    Node = z3.DeclareSort('N')
+    V = z3.DeclareSort('Val')
+    B = z3.BoolSort()
+    reads = z3.Function('reads', Node, Node, B)          # reads(p, d): d's formula / range needs p
+    succ = z3.Function('succ', Node, Node, B)
+    inS = z3.Function('inS', Node, B)                    # ghost S: needed after the walk from the inputs
+    isin = z3.Function('is_input', Node, B)
+    isout = z3.Function('is_output', Node, B)
+    comp0 = z3.Function('computed_before', Node, B)      # has a formula / is a range in the untrimmed model
+    comp1 = z3.Function('computed_after', Node, B)
+    relevant = z3.Function('relevant', Node, B)          # processed or output (what the trimmed model keeps and uses)
+    AV = z3.ArraySort(Node, V)
+    F = z3.Function('F', Node, AV, V)
+    sem0, sema, semt = z3.Consts('sem_trimtime sem_a sem_trimmed_a', AV)
+    const = z3.Function('constant', Node, V)
+    assigned = z3.Function('assigned_a', Node, V)
+    d, p, m, k, i = z3.Consts('d p m k i', Node)
+    va, vb = z3.Consts('va vb', AV)
+    base = [
+        # A-EVAL: F(d, .) depends on the values of d's read-precedents only
+        z3.ForAll([d, va, vb], z3.Implies(z3.ForAll([p], z3.Implies(reads(p, d), va[p] == vb[p])), F(d, va) == F(d, vb))),
+        # C04 / C01 Edges: every read is an edge
+        z3.ForAll([p, d], z3.Implies(reads(p, d), succ(p, d))),
+        # tg_outputs_and_dependants_needed: S holds the dependants of the inputs and is closed under dependants
+        z3.ForAll([i, k], z3.Implies(z3.And(isin(i), succ(i, k)), inS(k))),
+        z3.ForAll([m, k], z3.Implies(z3.And(inS(m), succ(m, k)), inS(k))),
+        # semantics of the untrimmed model under the trim-time assignment (0) and under another assignment (a):
+        # inputs take the assigned value, other constants are what they are, computed nodes apply F
+        z3.ForAll([m], z3.Implies(isin(m), sema[m] == assigned(m))),
+        z3.ForAll([m], z3.Implies(z3.And(z3.Not(isin(m)), z3.Not(comp0(m))), z3.And(sem0[m] == const(m), sema[m] == const(m)))),
+        z3.ForAll([m], z3.Implies(z3.And(z3.Not(isin(m)), comp0(m)), z3.And(sem0[m] == F(m, sem0), sema[m] == F(m, sema)))),
+    ]
+    out = []
+
+    def check(name, hyps, goal):
+        s = z3.Solver()
+        s.set('timeout', 60000)
+        for h in base + hyps:
+            s.add(h)
+        s.add(z3.Not(goal))
+        t0 = time.time()
+        r = s.check()
+        out.append(dict(name=name, status='unsat' if r == z3.unsat else 'sat' if r == z3.sat else 'unknown',
+                        ms=(time.time() - t0) * 1000))
+    # step A: a node outside S that is not an input does not feel the inputs
+    d0 = z3.Const('d0', Node)
+    ih_a = z3.ForAll([p], z3.Implies(z3.And(reads(p, d0), z3.Not(inS(p)), z3.Not(isin(p))), sema[p] == sem0[p]))
+    check('outside_S_independent_of_inputs', [z3.Not(inS(d0)), z3.Not(isin(d0)), ih_a], sema[d0] == sem0[d0])
+    # step B: the trimmed model agrees with the untrimmed one on every node it keeps and uses
+    fact_a = z3.ForAll([m], z3.Implies(z3.And(z3.Not(inS(m)), z3.Not(isin(m))), sema[m] == sem0[m]))       # conclusion of A
+    trimmed = [
+        # tg_frozen_are_outside_the_dependants: a node that stops computing was outside S, not an output, and holds its
+        # trim-time value, which by C01's Local is its from-scratch value sem0
+        z3.ForAll([m], z3.Implies(z3.And(comp0(m), z3.Not(comp1(m))), z3.And(z3.Not(inS(m)), z3.Not(isout(m))))),
+        z3.ForAll([m], z3.Implies(comp1(m), comp0(m))),
+        # tg_kept_computed_nodes_keep_their_precedents
+        z3.ForAll([m, p], z3.Implies(z3.And(relevant(m), comp1(m), reads(p, m)), relevant(p))),
+        # semantics of the trimmed model under assignment a
+        z3.ForAll([m], z3.Implies(isin(m), semt[m] == assigned(m))),
+        z3.ForAll([m], z3.Implies(z3.And(z3.Not(isin(m)), comp1(m)), semt[m] == F(m, semt))),
+        z3.ForAll([m], z3.Implies(z3.And(z3.Not(isin(m)), comp0(m), z3.Not(comp1(m))), semt[m] == sem0[m])),   # frozen
+        z3.ForAll([m], z3.Implies(z3.And(z3.Not(isin(m)), z3.Not(comp0(m))), semt[m] == const(m))),
+    ]
+    ih_b = z3.ForAll([p], z3.Implies(z3.And(reads(p, d0), relevant(p)), semt[p] == sema[p]))
+    check('trimmed_agrees_on_kept_nodes', trimmed + [fact_a, relevant(d0), ih_b], semt[d0] == sema[d0])
+    return out
+
+
+SMT_LEMMAS = [sem_preservation_steps]
+
 LEVEL = 'other'
-EXPLANATION = ('Mixed. PROVED by SMT (heap mode: address sets held in closure variables as heap fields, the formula field, '
-               'abstract successor / needed-address sets, loop invariants with a ghost visited set, recursive calls discharged '
-               'against the function\'s own contract, no transitive closure): walk_dependents - the set only grows, contains every '
-               'dependant of the cell, and every address it adds has all its dependants in the set (so the needed set is closed '
-               'under dependants of the inputs); walk_precedents - every address a processed node needs is processed unless the '
-               'node was frozen; only cells outside the needed set that are not ranges lose their formula, a frozen cell holds a '
-               'value (obligation (c): refuted on the pinned tree, repaired), cached values never change. BOUNDED (native): '
-               'trim_graph as a whole (input validation, removal of unneeded cells) and the equivalence itself - trimmed vs '
-               'untrimmed model under sequences of input assignments, again after save / load, over grammar workbooks and '
-               'out-mid-out / falsy-helper / buried-input / deep-helper shapes, from in-memory and .xlsx origins.')
+EXPLANATION = ('Mixed. PROVED by SMT (heap mode: address sets held in local / closure variables as heap fields, the formula field, '
+               'mutable cell_map membership, abstract successor / needed-address sets, loop invariants with a ghost visited set, '
+               'recursive calls discharged against the contracts themselves, a ghost snapshot S of the needed set after the walk '
+               'from the inputs; no transitive closure): walk_dependents, walk_precedents, and trim_graph itself (1-2 inputs, 1-2 '
+               'outputs; graph of the outputs already built): (a) cell_map afterwards is exactly the old cell_map restricted to the '
+               'needed set; the outputs are needed; S lies inside the needed set, holds every dependant of an input and is closed '
+               'under dependants; (b)+(c) a cell loses its formula only if it is outside S, not an output and not a range, and it '
+               'then holds a value and is kept; (d) every output / processed node that still computes has all the addresses it '
+               'needs processed, and processed addresses are needed or ranges; cached values never change. From these, two '
+               'induction-step lemmas (raw SMT over uninterpreted Sem functions): a node outside S that is not an input has the '
+               'same from-scratch value under every assignment of the inputs; the trimmed model agrees with the untrimmed one on '
+               'every node it keeps and uses - i.e. outputs are preserved as a function of the inputs. BOUNDED (native): the same '
+               'equivalence observed on real models (trimmed vs untrimmed under sequences of input assignments, again after save / '
+               'load) over grammar workbooks and out-mid-out / falsy-helper / buried-input / deep-helper shapes, two origins.')
 ASSUMPTIONS = ['A-NX', 'A-EVAL', 'A-MAP: cell_map holds the node of every address a graph node needs (built by _gen_graph)',
                'A-EVALUATE-CACHES: evaluate(address) fills in values of un-cached nodes only and leaves a formula cell with a '
                'value that is not None (not-None proved for eval_func in C09)',
                'address text <-> node is a bijection; ":" in address <=> range node (C11)',
-               'the semantic lemma Sem\'(o) = Sem(o) (rank induction over the two closure contracts) is argued in DESIGN.md, '
-               'not machine-checked; the stand-in checks its conclusion']
+               'the rank induction itself (acyclic reads relation) is meta-level: the two step lemmas are machine-checked, the '
+               'induction principle is not; C01 Local gives "cached computed node holds its from-scratch value"; C04 gives '
+               '"every read is an edge"',
+               'trim_graph is verified with the graph of the outputs already built (_gen_graph assumed to change nothing then) '
+               'and for 1-2 inputs / outputs (the loops over them are unrolled)',
+               'range nodes that are only precedents are dropped by trim_graph and rebuilt on demand (_evaluate_range): bounded']
 BOUNDED_FUNCTIONS = [
-    Contract('pycel.excelcompiler:ExcelCompiler.trim_graph', 'C08', params={}, klass='BOUNDED',
-             notes='top level: address normalisation, _gen_graph, input diagnostics, seeding the needed set with the outputs, '
-                   'removal of unneeded cells from cell_map'),
+    Contract('pycel.excelcompiler:ExcelCompiler._gen_graph', 'C08', params={}, klass='BOUNDED',
+             notes='building the graph of the outputs (step 1 of trim_graph): C04 / C05'),
 ]
